@@ -917,15 +917,15 @@ func ruleTimeParams(r *Run) {
 					}
 					return nil
 				}
-				if arg0(fs["Start"]) != start || arg0(fs["End"]) != end {
+				if originValueIn(arg0(fs["Start"]), runGrp) != start || originValueIn(arg0(fs["End"]), runGrp) != end {
 					bad = true
 					ow.Fail(r.pos(ev.Pos()), "EvalParams{Start: %s, End: %s}: expected the parsed start and end", describe(fs["Start"], 0), describe(fs["End"], 0))
 				}
-				if fs["Step"] != ex(ps, 0) {
+				if originValueIn(fs["Step"], runGrp) != ex(ps, 0) {
 					bad = true
 					ow.Fail(r.pos(ev.Pos()), "EvalParams.Step is %s, not the parsed step", describe(fs["Step"], 0))
 				}
-				if !isFlag(fs["Limit"], "limit") {
+				if !isFlag(fs["Limit"], "limit") && !isFlag(originValueIn(fs["Limit"], runGrp), "limit") {
 					bad = true
 					ow.Fail(r.pos(ev.Pos()), "EvalParams.Limit is %s, not the --limit flag", describe(fs["Limit"], 0))
 				}
@@ -935,7 +935,14 @@ func ruleTimeParams(r *Run) {
 			for _, c := range []*ssa.Call{tr, ps} {
 				errv := ex(c, c.Call.Signature().Results().Len()-1)
 				okNil := false
-				for _, f := range factsAt(ev.Block()) {
+				evAt := ssa.Instruction(ev)
+				if c.Parent() != ev.Parent() {
+					// the evaluation sits in a helper: where that helper is called
+					if l := liftInstr(ev, c.Parent(), runGrp, false); l != nil && l.Parent() == c.Parent() {
+						evAt = l
+					}
+				}
+				for _, f := range factsAt(evAt.Block()) {
 					if x, nn, ok := nilCheck(f.Cond); ok && x == errv && nn != f.Truth {
 						okNil = true
 					}
